@@ -4,6 +4,7 @@ import Prism.Proofs.C09AllocPng
 import Prism.Proofs.C09Cost
 import Prism.Proofs.C09Desc
 import Prism.Proofs.C09Fuel
+import Prism.Proofs.C09FuelIndep
 
 #print axioms Prism.C09_consumed_le
 #print axioms Prism.C09_alloc_lazy
@@ -28,3 +29,5 @@ import Prism.Proofs.C09Fuel
 #print axioms Prism.C09_png_fuel_suffices
 #print axioms Prism.C09_jpeg_fuel_suffices
 #print axioms Prism.C09_driver_fuel_suffices
+#print axioms Prism.C09_png_fuel_irrelevant
+#print axioms Prism.C09_jpeg_fuel_irrelevant
